@@ -18,7 +18,8 @@ import numpy as np
 
 from ..contracts import attach, detach_all, quiet
 from ..polyhard import (cfg32, clear_caches, warm32, layouts, is_c_contig, contig, order_containers, foreign_traffic, high_orders, seq_coord_kind_ok,
-                        coord_forms, more_order_containers, term_containers, ORDER_FORMS, NM_FORMS, PARAM_FORMS, INT_PARAM_FORMS, INT_HERMITE_MAX_ORDER)
+                        coord_forms, more_order_containers, term_containers, ORDER_FORMS, NM_FORMS, PARAM_FORMS, INT_PARAM_FORMS, INT_HERMITE_MAX_ORDER,
+                        scales, ulps, special_class, near_special_jacobi, near_special_scalar, EXACT_SPECIAL_JACOBI, GENERIC_NEIGHBOURS_JACOBI, term_orderings)
 from ..util import precision
 
 RULE = ('every *_seq routine x order lists (ALL non-empty ascending subsets of {0..6}; gapped lists up to 40; singletons; '
@@ -40,7 +41,13 @@ RULE = ('every *_seq routine x order lists (ALL non-empty ascending subsets of {
         'lists of int64 / int32 / uint32 / uint64 / intp, unsigned ndarrays, dict key views, one-shot generators / iterators (judged against the list form); shape parameters as '
         'numpy float64 / float32 / python int / numpy int64 incl. the lines alpha + beta = -1, 0 with alpha != beta; term lists in every accepted container, (n, m) as numpy '
         'integers; norm / cartesian_grid omitted vs explicit, also after the other explicit value; class F - every routine judged after unmonitored traffic through the shared '
-        'tables from the other routines of the library')
+        'tables from the other routines of the library. Hardening pass 3: class H - shape parameters special only UP TO ROUNDING (alpha = 0.1 + 0.2, beta = -0.3; alpha + beta = -1 +- 1 ulp; one ulp '
+        'from 0, +-1/2, an integer; alpha -> -1), exactly special ones and clearly generic neighbours for jacobi_seq, jacobi_der_seq, laguerre_seq, laguerre_der_seq, dickson1_seq, dickson2_seq '
+        '(a failure that disappears at the exactly special neighbour is keyed .../special:<line>); evaluation points exactly at 0, -0.0, +-1, the ends of each domain and one ulp inside them as '
+        'whole arrays, 2-D, every point alone as length-1 and 0-d array, order lists containing only order 0, for every one-index routine; the two-index routines on the axis and the rim, monomials '
+        'with zero base / zero exponent; class G - xy_seq on coordinates scaled by 1e-12 ... 1e12 against xy() RELATIVE to the size of each mode and against s^(m+n) times the unscaled modes; '
+        'class I - every ordering of the two-index term lists (ascending, descending, grouped by |m|, m-major, sine first, radial orders non-ascending inside each |m| group, shuffles, all '
+        'permutations of three-term same-|m| groups incl. mixed signs) for zernike_nm_seq, zernike_nm_der_seq, Q2d_seq, xy_seq')
 ASSUMPTIONS = ['the single-order routine is the oracle (its own correctness is C07 / C09)',
                'one-index order lists are in-domain when non-empty, non-negative and strictly ascending (the documented contract: '
                '"sorted orders"); other lists reaching a contract are excluded and counted',
@@ -49,14 +56,18 @@ ASSUMPTIONS = ['the single-order routine is the oracle (its own correctness is C
                'argument forms (class E): the accepted forms are DATA established on /repo @ faa8443 (vp/polyhard.py); coordinate dtype kinds a routine truncates today (integer / bool for '
                'most *_seq, all of them for zernike_nm(_der)_seq and Q2d_seq) are excluded and counted; complex64 coordinates and float32-typed parameters are the single-precision class',
                'single-precision class (float32 coordinates or config.precision = 32): tolerance 2e-4',
-               'emptying prysm\'s memo tables (functools cache_clear, where a helper offers it) never changes what a correct library returns']
+               'emptying prysm\'s memo tables (functools cache_clear, where a helper offers it) never changes what a correct library returns',
+               'sequence and single-order routine evaluate the same function, smooth in its shape parameters: parameters special only up to rounding are judged at the ordinary tolerance '
+               '(established on /repo @ c2c1d7f: seq == single bit for bit for all of them)',
+               'the scale regimes of class G are judged by workload monitors relative to sup |mode|; the contracts keep their absolute floor of 1']
 REQUIRED = ['alias.arguments-intact', 'alias.result-stable', 'seq.jacobi_seq', 'seq.jacobi_der_seq', 'seq.legendre_seq', 'seq.legendre_der_seq',
             'seq.cheby1_seq', 'seq.cheby1_der_seq', 'seq.cheby2_seq', 'seq.cheby2_der_seq',
             'seq.cheby3_seq', 'seq.cheby3_der_seq', 'seq.cheby4_seq', 'seq.cheby4_der_seq',
             'seq.hermite_He_seq', 'seq.hermite_He_der_seq', 'seq.hermite_H_seq', 'seq.hermite_H_der_seq',
             'seq.laguerre_seq', 'seq.laguerre_der_seq', 'seq.dickson1_seq', 'seq.dickson2_seq',
             'seq.Qbfs_seq', 'seq.Qcon_seq', 'seq.zernike_nm_seq', 'seq.zernike_nm_der_seq', 'seq.Q2d_seq', 'seq.xy_seq',
-            'classD.very-high-orders', 'classE.argument-forms', 'classF.foreign-traffic']
+            'classD.very-high-orders', 'classE.argument-forms', 'classF.foreign-traffic',
+            'classG.scale-laws', 'classH.special-parameters', 'classH.special-points', 'classI.orderings']
 
 CTX = None
 HANDLED = [None]     # the exception object most recently classified by a contract (so the workload does not report it twice)
@@ -234,6 +245,26 @@ def form_of(fn, raw, params, x, rtol):
     return ''
 
 
+def special_of(fn, ns, params, x, rtol):
+    """Class H attribution: the shape parameters are special only up to rounding (vp.polyhard.special_class) and the sequence routine agrees with the single-order routine
+    again at the exactly special neighbour parameters -> the label of the special line; '' otherwise (the defect does not depend on that regime)."""
+    if not params:
+        return ''
+    sp = special_class(tuple(float(p) for p in params))
+    if sp is None:
+        return ''
+    if sp[1] is None:
+        return sp[0]
+    single = ONE_INDEX[fn][1]
+    try:
+        with np.errstate(all='ignore'):
+            got = np.asarray(ORIG[fn](ns, *sp[1], x))
+            ref = np.array([np.asarray(ORIG[single](n, *sp[1], x)) for n in ns])
+        return sp[0] if (got.shape == ref.shape and not row_errors(got, ref, None, rtol)[0]) else ''
+    except Exception:  # noqa
+        return ''
+
+
 def make_one(fn):
     sub, single, npar = ONE_INDEX[fn]
     mon = 'seq.' + fn
@@ -260,6 +291,9 @@ def make_one(fn):
         form = form_of(fn, raw, params, x, rtol)
         if form:
             return f'C08/{fn}/form:{form}', f'the routine is right for the canonical form of the same request (python int orders, python float parameters, float64 coordinates): the defect is specific to the argument form {form}'
+        sp = special_of(fn, ns, params, x, rtol)
+        if sp:
+            return f'C08/{fn}/special:{sp}', f'the shape parameters are special only up to rounding ({sp}) and the routine agrees with the single-order routine again at the exactly special neighbour: the defect lives in that narrow parameter regime'
         if x.ndim != 1 and ravel_route_ok(lambda: ORIG[fn](ns, *params, x.reshape(-1)), ref, rtol):
             return nd_key(fn), 'is correct for the flattened coordinates but not for this coordinate shape'
         return None, None
@@ -934,6 +968,201 @@ def foreign_units(ctx, P, rng, fns):
             call(ctx, P, fn, desc, L, r, t, **kw)
 
 
+# ------------------------------------------------------------------------------------------ hardening pass 3 (HARDENING3.md G, H, I)
+def ends_of(fn):
+    """Evaluation points exactly at the ends of the routine's domain, at 0 / -0.0 / +-1 and one ulp inside the ends."""
+    lo, hi = domain(fn)
+    if fn.startswith('hermite'):
+        return np.array([0.0, -0.0, 1.0, -1.0, lo, hi, 0.5])
+    if fn.startswith('laguerre'):
+        return np.array([0.0, 1.0, ulps(0.0, 1), hi, 0.5])
+    if fn.startswith('dickson'):
+        return np.array([0.0, -0.0, 1.0, -1.0, lo, hi, 0.5])
+    if fn.startswith('Q'):
+        return np.array([0.0, 1.0, ulps(1.0, -1), 2.0 ** -30, 0.5])
+    return np.array([-1.0, 1.0, 0.0, -0.0, ulps(-1.0, 1), ulps(1.0, -1), 0.5])
+
+
+def special_parameter_units(ctx, P, part, nparts):
+    """Class H, shape parameters special only UP TO ROUNDING (alpha = 0.1 + 0.2, beta = -0.3: alpha + beta is a rounding residue; alpha + beta = -1 +- 1 ulp; a parameter one ulp
+    from 0, +-1/2 or an integer; alpha -> -1), the exactly special ones and clearly generic neighbours, for every sequence routine that takes shape parameters; coordinates include 0
+    and both ends of the domain.  Sequence and single-order routine evaluate the same smooth function of the parameters, so the ordinary tolerance applies (nothing is lost to
+    conditioning); a failure that disappears at the exactly special neighbour is keyed .../special:<line>."""
+    jac = [('special:' + c, ab) for c, ab, nb in near_special_jacobi(not ctx.quick)] + [('exactly-special', ab) for ab in EXACT_SPECIAL_JACOBI] + [('generic-neighbour', ab) for ab in GENERIC_NEIGHBOURS_JACOBI]
+    lists = ([0, 1, 2, 3], [1], [2, 5], [6], [0], [1, 2], [0, 1, 2, 3, 4, 5, 6, 7, 8, 9, 10, 11, 12], [3, 19]) + ctx.pick((), ([0, 2], [2], [3, 4, 5], [1, 41], list(range(0, 42))))
+    i = -1
+    for fn in ('jacobi_seq', 'jacobi_der_seq'):
+        xs = [('1d+ends', np.array([-1.0, -0.4375, 0.0, 0.28125, 1.0])), ('2d', np.array([[-0.8125, 0.0, 0.59375], [1.0, -1.0, 0.21875]])), ('0d', np.array(0.34375))]
+        for cls, ab in jac:
+            i += 1
+            if i % nparts != part:
+                continue
+            for li, ns in enumerate(lists):
+                xl, x = xs[li % 3] if li else xs[0]
+                desc = {'wl': 'special-parameters', 'fn': fn, 'ns': ns if len(ns) <= 8 else [ns[0], '..', ns[-1]], 'params': [repr(v) for v in ab], 'pclass': cls, 'x': xl, 'class': f'{fn}:{cls}'}
+                ctx.case(desc, nontrivial=ns[-1] >= 1)
+                ctx.observe('classH.special-parameters')
+                call(ctx, P, fn, desc, ns if li % 2 else np.array(ns), ab[0], ab[1], x)
+    table = [('laguerre_seq', near_special_scalar([0.0, 0.5, -0.5, 1.0, 2.0], lower=-1.0, thorough=not ctx.quick), [0.0, 0.5, -0.5, 1.0]),
+             ('laguerre_der_seq', near_special_scalar([0.0, 0.5, -0.5, 1.0], lower=-1.0, thorough=not ctx.quick), [0.0, 0.5, -0.5]),
+             ('dickson1_seq', near_special_scalar([0.0, 1.0, -1.0, 0.5], thorough=not ctx.quick), [0.0, 1.0, -1.0, 0.5]),
+             ('dickson2_seq', near_special_scalar([0.0, 1.0, -1.0, 0.5], thorough=not ctx.quick), [0.0, 1.0, -1.0, 0.5])]
+    for fn, near, exact_ in table:
+        x = ends_of(fn)
+        for cls, a in [('special:alpha~k/2', v) for c, v, sp_ in near] + [('exactly-special', v) for v in exact_]:
+            i += 1
+            if i % nparts != part:
+                continue
+            for li, ns in enumerate(lists[:7]):
+                desc = {'wl': 'special-parameters', 'fn': fn, 'ns': ns if len(ns) <= 8 else [ns[0], '..', ns[-1]], 'params': [repr(a)], 'pclass': cls, 'class': f'{fn}:{cls}'}
+                ctx.case(desc, nontrivial=ns[-1] >= 1)
+                ctx.observe('classH.special-parameters')
+                call(ctx, P, fn, desc, ns, a, x if li % 2 else x[:4].reshape(2, 2))
+
+
+def special_point_units(ctx, P, fns):
+    """Class H, evaluation points exactly at 0 / -0.0 / +-1 / the ends of the domain / one ulp inside them (whole array, each point alone as length-1 and 0-d array, 2-D), and order
+    lists containing only order 0, for every one-index sequence routine; the two-index routines on the axis (r = 0 with |m| = 0, 1, 2) and on the rim, monomials with a zero
+    base and / or a zero exponent."""
+    for fn in fns:
+        npar = ONE_INDEX[fn][2]
+        x = ends_of(fn)
+        for par in PARAMS[npar][:2] + ([(0.0, 0.5), (-0.5, 0.0)] if npar == 2 else [(0.0,)] if npar == 1 else []):
+            for ns in ([0], [0, 1], [1], [0, 1, 2, 3], [2, 5, 12], [0, 7], [1, 2]) + ctx.pick((), ([3], [0, 2, 4], [19, 41], list(range(0, 13)))):
+                if ns[-1] > 12 and fn.startswith(('hermite', 'laguerre', 'dickson')):
+                    continue
+                forms = [('array', x), ('2d', x[:4].reshape(2, 2))] + [(f'len1:{j}', x[j:j + 1]) for j in range(len(x))] + [(f'0d:{j}', np.array(x[j])) for j in range(len(x))]
+                for form, xv in forms:
+                    desc = {'wl': 'special-points', 'fn': fn, 'ns': ns, 'params': list(par), 'x': form.split(':')[0], 'point': repr(float(np.ravel(xv)[0])) if xv.size == 1 else 'all',
+                            'class': f'{fn}:special-points:{form.split(":")[0]}'}
+                    ctx.case(desc, nontrivial=ns[-1] >= 1)
+                    ctx.observe('classH.special-points')
+                    call(ctx, P, fn, desc, ns, *par, xv)
+
+
+def special_point_two(ctx, P):
+    r = np.array([0.0, 0.0, 0.0, 1.0, 1.0, ulps(1.0, -1), 2.0 ** -30, 0.5])
+    t = np.array([0.0, np.pi / 2, 1.25, 0.0, np.pi, 3 * np.pi / 2, 2 * np.pi, -np.pi / 2])
+    zl = [[(0, 0)], [(0, 0), (0, 0)], [(1, 1)], [(1, -1)], [(1, 1), (1, -1), (3, 1), (3, -1), (2, 0), (5, 1)], [(2, 2), (2, -2), (4, 2), (0, 0)], [(n, m) for n in range(7) for m in range(-n, n + 1, 2)],
+          [(19, 1), (19, -1), (20, 0), (3, 1)]]
+    ql = [[(0, 0)], [(0, 1)], [(0, -1)], [(0, 1), (0, -1), (1, 1), (2, -1), (0, 0), (3, 1)], [(1, 2), (0, -2), (2, 0)], [(n, m) for n in range(4) for m in range(-3, 4)], [(19, 1), (18, 0), (12, -2)]]
+    for form, rv, tv in (('array', r, t), ('len1:axis', r[:1], t[2:3]), ('0d:axis', np.array(0.0), np.array(1.25)), ('0d:rim', np.array(1.0), np.array(0.0)), ('2d', r.reshape(2, 4), t.reshape(2, 4))):
+        for lst in zl:
+            for fn in ('zernike_nm_seq', 'zernike_nm_der_seq'):
+                for norm in (True, False):
+                    desc = {'wl': 'special-points', 'fn': fn, 'nms': lst[:8], 'norm': norm, 'x': form, 'class': f'{fn}:special-points:{form}'}
+                    ctx.case(desc, nontrivial=max(n for n, m in lst) >= 1)
+                    ctx.observe('classH.special-points')
+                    call(ctx, P, fn, desc, lst, rv, tv, norm=norm)
+        for lst in ql:
+            desc = {'wl': 'special-points', 'fn': 'Q2d_seq', 'nms': lst[:8], 'x': form, 'class': f'Q2d_seq:special-points:{form}'}
+            ctx.case(desc)
+            call(ctx, P, 'Q2d_seq', desc, lst, rv, tv)
+    x0 = np.array([0.0, 0.0, 1.0, -1.0, 0.5, -0.0])
+    y0 = np.array([0.0, 0.75, 0.0, -1.0, 0.0, 1.0])
+    X0, Y0 = np.meshgrid(np.array([0.0, -1.0, 1.0, 0.5]), np.array([0.0, 1.0, -0.25]))
+    exps = [(m, n) for m in range(0, 4) for n in range(0, 4)] + [(7, 0), (0, 7), (12, 1)]
+    for lst in ([(0, 0)], [(0, 0), (0, 0)], [(0, 3)], [(3, 0)], exps, exps[::-1], [(0, 3), (3, 0), (0, 0), (1, 1)]):
+        for form, xv, yv, cart in (('general', x0, y0, False), ('meshgrid', X0, Y0, True), ('meshgrid-flag-off', X0, Y0, False), ('general-0d', np.array(0.0), np.array(0.0), False),
+                                   ('separable', X0[:1], Y0[:, :1], True)):
+            desc = {'wl': 'special-points', 'fn': 'xy_seq', 'mns': lst[:8], 'x': form, 'class': f'xy_seq:special-points:{form}'}
+            ctx.case(desc, nontrivial=max(a + b for a, b in lst) >= 1)
+            call(ctx, P, 'xy_seq', desc, lst, xv, yv, cartesian_grid=cart)
+
+
+def ordering_units(ctx, P, rng, part, nparts):
+    """Class I, every ordering of a two-index term list (ascending, descending, grouped by |m| with n ascending / descending, m-major, sine terms first, radial orders NON-ascending
+    inside each |m| group with the groups interleaved, shuffles) for the full low-order sets, and ALL permutations of small same-|m| groups incl. mixed signs."""
+    zset = [(n, m) for n in range(ctx.pick(6, 9)) for m in range(-n, n + 1, 2)]
+    qset = [(n, m) for n in range(ctx.pick(4, 6)) for m in range(-3, 4)]
+    xset = [(a, b) for a in range(4) for b in range(4)]
+    jobs = []
+    for lab, o in term_orderings(zset, rng, ctx.pick(2, 8)):
+        jobs += [(fn, lab, o, {'norm': nrm}) for fn in ('zernike_nm_seq', 'zernike_nm_der_seq') for nrm in (True, False)]
+    for lab, o in term_orderings(qset, rng, ctx.pick(2, 8)):
+        jobs.append(('Q2d_seq', lab, o, {}))
+    for lab, o in term_orderings(xset, rng, ctx.pick(2, 8)):
+        jobs.append(('xy_seq', lab, o, {'cartesian_grid': False}))
+        jobs.append(('xy_seq', lab, o, {}))
+    for am in (0, 1, 2, 3):
+        for grp in ([(am + 2 * j, am) for j in range(3)],):
+            for perm in itertools.permutations(grp):
+                jobs += [(fn, 'permutation-of-one-|m|-group', list(perm), {'norm': bool(am % 2)}) for fn in ('zernike_nm_seq', 'zernike_nm_der_seq')]
+                if am:
+                    mixed = [(n, m if i % 2 else -m) for i, (n, m) in enumerate(perm)] + [(perm[0][0], -am)]
+                    jobs += [(fn, 'permutation-of-one-|m|-group-mixed-signs', mixed, {'norm': not am % 2}) for fn in ('zernike_nm_seq', 'zernike_nm_der_seq')]
+        for perm in itertools.permutations([(j, am) for j in (0, 1, 3)]):
+            jobs.append(('Q2d_seq', 'permutation-of-one-|m|-group', list(perm), {}))
+            if am:
+                jobs.append(('Q2d_seq', 'permutation-of-one-|m|-group-mixed-signs', [(n, m if i % 2 else -m) for i, (n, m) in enumerate(perm)] + [(perm[0][0], -am)], {}))
+    r, t = np.concatenate([[0.0, 1.0], rng.uniform(0.05, 1, 3)]), rng.uniform(0, 2 * np.pi, 5)
+    r2, t2 = rng.uniform(0.05, 1, (2, 3)), rng.uniform(0, 2 * np.pi, (2, 3))
+    xv, yv = rng.uniform(-1, 1, 5), rng.uniform(-1, 1, 5)
+    X, Y = np.meshgrid(rng.uniform(-1, 1, 4), rng.uniform(-1, 1, 3))
+    for i, (fn, lab, lst, kw) in enumerate(jobs):
+        if i % nparts != part:
+            continue
+        if fn == 'xy_seq':
+            c0, c1 = (xv, yv) if 'cartesian_grid' in kw else (X, Y)
+        else:
+            c0, c1 = (r, t) if i % 4 else (r2, t2)
+        desc = {'wl': 'orderings', 'fn': fn, 'ordering': lab, 'terms': lst[:10], 'k': len(lst), 'opt': str(kw), 'class': f'{fn}:ordering:{lab}'}
+        ctx.case(desc)
+        ctx.observe('classI.orderings')
+        call(ctx, P, fn, desc, lst if i % 3 else np.array(lst), c0, c1, **kw)
+
+
+def scale_units(ctx, P):
+    """Class G: x^m y^n is homogeneous in the coordinates - xy_seq on coordinates scaled by 1e-12 ... 1e12 (both, x only, y only) against xy() on the same coordinates, RELATIVE to
+    the size of each mode (the contract's tolerance has an absolute floor of 1 and cannot see a tiny regime), and against s^(m+n) times the unscaled modes."""
+    x0 = np.array([0.75, -0.4375, 0.15625, -1.0, 0.0, 0.59375])
+    y0 = np.array([-0.3125, 0.875, 1.0, 0.21875, 0.65625, 0.0])
+    xg, yg = np.array([0.75, -0.4375, 0.15625, 1.0]), np.array([-0.3125, 0.875, 0.46875])
+    exps = [(0, 0), (1, 0), (0, 1), (2, 3), (3, 0), (1, 4), (5, 5), (0, 7), (8, 2)]
+    for s in scales(ctx.quick) + (1.0,):
+        reg = 'tiny' if s < 1 else ('huge' if s > 1 else 'unit')
+        for sx, sy, lab in ((s, s, 'both'), (s, 1.0, 'x-only'), (1.0, s, 'y-only')):
+            if s == 1.0 and lab != 'both':
+                continue
+            ok = [(m, n) for m, n in exps if abs(m * np.log10(sx) + n * np.log10(sy)) <= 250]
+            for form, xv, yv, cart in (('general', sx * x0, sy * y0, False), ('meshgrid', *np.meshgrid(sx * xg, sy * yg), True)):
+                desc = {'wl': 'scale', 'fn': 'xy_seq', 'mns': ok, 'scale': s, 'scaled': lab, 'x': form, 'class': f'xy_seq:scale:{reg}:{lab}:{form}'}
+                ctx.case(desc)
+                got = call(ctx, P, 'xy_seq', desc, ok, xv, yv, cartesian_grid=cart)
+                if got is None:
+                    continue
+                base = (x0, y0) if form == 'general' else np.meshgrid(xg, yg)
+                with quiet(), np.errstate(all='ignore'):
+                    singles = [np.asarray(ORIG['xy'](m, n, xv, yv, cartesian_grid=cart)) for m, n in ok]
+                    unscaled = [np.asarray(ORIG['xy'](m, n, base[0], base[1], cartesian_grid=cart)) * (sx ** m) * (sy ** n) for m, n in ok]
+                for (m, n), mode, ref, law in zip(ok, got, singles, unscaled):
+                    mode = np.asarray(mode)
+                    sc = float(np.max(np.abs(ref))) if ref.size else 0.0
+                    ctx.close('classG.scale-laws', mode, ref, f'C08/xy_seq/scale:{reg}', 'a mode of xy_seq at scaled coordinates differs from xy() at the same coordinates relative to its own size', dict(desc, term=[m, n]),
+                              rtol=1e-10, atol=1e-300, scale=sc)
+                    ctx.close('classG.scale-laws', mode, law, f'C08/xy_seq/scale-law:{reg}', 'xy_seq(s x, s y)[m, n] is not s^(m+n) xy(m, n, x, y)', dict(desc, term=[m, n]), rtol=1e-10, atol=1e-300,
+                              scale=float(np.max(np.abs(law))) if law.size else 0.0)
+
+
+def hardening3(ctx, P, mine):
+    sp = ctx.pick(4, 12)
+    for part in range(sp):
+        if mine():
+            special_parameter_units(ctx, P, part, sp)
+    fns = list(ONE_INDEX)
+    for i in range(0, len(fns), 4):
+        if mine():
+            special_point_units(ctx, P, fns[i:i + 4])
+    if mine():
+        special_point_two(ctx, P)
+    op = ctx.pick(2, 4)
+    for part in range(op):
+        if mine():
+            ordering_units(ctx, P, np.random.default_rng([ctx.seed, 8108]), part, op)
+    if mine():
+        scale_units(ctx, P)
+
+
 def hardening(ctx, P, counter):
     fns = list(ONE_INDEX)
 
@@ -982,6 +1211,7 @@ def hardening(ctx, P, counter):
         container_two(ctx, P, ctx.rng('cont-two'))
     if mine():
         cfg32_two(ctx, P, ctx.rng('cfg32-two'))
+    hardening3(ctx, P, mine)
 
 
 def _run(ctx):
